@@ -473,18 +473,37 @@ theorem blocks_not_zero (A : FArith) (hA : GoodArith A) (data d : List Nat) (hd 
   | cons o rest =>
     have : o = 0 := by simpa using h0
     subst this
-    have hplan : planNotZero A data.length b = some (1 :: rest, lengthsOf data.length (1 :: rest)) := by
-      simp only [planNotZero, plan, ho, Option.map_some]
-      rw [lengthsOf_head_shift]
-    refine ⟨blocksOf data d (1 :: rest), by simp [fileBlocksNotZero, hplan, blocksOf], ?_⟩
-    apply blocksOf_flatten_le hd rest 1
-    · rw [List.pairwise_cons] at hpw ⊢
-      refine ⟨fun x hx => ?_, hpw.2.imp (fun h => Nat.le_of_lt h)⟩
-      have := hpw.1 x hx; omega
-    · intro x hx
-      rcases List.mem_cons.mp hx with rfl | hx
-      · omega
-      · exact Nat.le_of_lt (hlt x (List.mem_cons_of_mem _ hx))
+    have hmem : ∀ x ∈ rest, 0 < x ∧ x < data.length := fun x hx =>
+      ⟨(List.pairwise_cons.mp hpw).1 x hx, hlt x (List.mem_cons_of_mem _ hx)⟩
+    have hshift := lengthsOf_head_shift data.length rest (fun x hx => (hmem x hx).1)
+    cases rest with
+    | nil =>
+      have hplan : planNotZero A data.length b = some ([1], lengthsOf data.length [1]) := by
+        simp only [planNotZero, plan, ho, Option.map_some]; rw [hshift]
+      refine ⟨blocksOf data d [1], by simp [fileBlocksNotZero, hplan, blocksOf], ?_⟩
+      exact blocksOf_flatten_le hd [] 1 (by simp) (by intro x hx; simp at hx; omega)
+    | cons o' r =>
+      have hrest : (o' :: r).Pairwise (· ≤ ·) := (List.pairwise_cons.mp hpw).2.imp (fun h => Nat.le_of_lt h)
+      by_cases h1 : o' = 1
+      · -- one-byte blocks: the empty first block is dropped, the second one starts at byte 1 as well
+        subst h1
+        have hplan : planNotZero A data.length b = some (1 :: r, lengthsOf data.length (1 :: r)) := by
+          simp only [planNotZero, plan, ho, Option.map_some]; rw [hshift]; simp
+        refine ⟨blocksOf data d (1 :: r), by simp [fileBlocksNotZero, hplan, blocksOf], ?_⟩
+        apply blocksOf_flatten_le hd r 1 hrest
+        intro x hx
+        exact Nat.le_of_lt (hmem x hx).2
+      · have hplan : planNotZero A data.length b = some (1 :: o' :: r, lengthsOf data.length (1 :: o' :: r)) := by
+          simp only [planNotZero, plan, ho, Option.map_some]; rw [hshift]; simp [h1]
+        refine ⟨blocksOf data d (1 :: o' :: r), by simp [fileBlocksNotZero, hplan, blocksOf], ?_⟩
+        apply blocksOf_flatten_le hd (o' :: r) 1
+        · rw [List.pairwise_cons]
+          refine ⟨fun x hx => ?_, hrest⟩
+          have := (hmem x hx).1; omega
+        · intro x hx
+          rcases List.mem_cons.mp hx with rfl | hx
+          · omega
+          · exact Nat.le_of_lt (hmem x hx).2
 
 example : fileBlocksNotZero ieee [104, 10, 97, 10, 98, 10, 99] [10] 2 = some [[97, 10], [98, 10], [99]] := by decide +kernel
 
